@@ -5,6 +5,7 @@ package home
 import (
 	"bytes"
 	"context"
+	"encoding/gob"
 	"encoding/json"
 	"fmt"
 	"math/rand/v2"
@@ -29,6 +30,7 @@ import (
 	"github.com/AdguardTeam/AdGuardHome/internal/vutil"
 	"github.com/AdguardTeam/golibs/logutil/slogutil"
 	"github.com/miekg/dns"
+	"go.etcd.io/bbolt"
 )
 
 // C08 harness: a real clientsContainer (client.Storage built from config-file
@@ -51,6 +53,28 @@ type c08Checker struct{}
 
 func (c08Checker) IsBlockedClient(_ netip.Addr, _ string) (bool, string) { return false, "" }
 
+// c08FixDefault tells whether /repo carries fixes/c08/zoned_client_stats.patch
+// (shouldCountClient looks clients up with FindLoose).  The harness reports it
+// with every reset line and the driver runs the matching model variant
+// (Conf.fixZone).  VERIF_C08_FIX=0/1 overrides it for scratch trees.
+const c08FixDefault = false
+
+// c08ZonedDefault turns on persistent clients configured with zoned addresses
+// (fe80::1%eth0).  The unrepaired tree violates C08 for them, so it is off until
+// the repair is applied.  VERIF_C08_ZONED=0/1 overrides it.
+const c08ZonedDefault = false
+
+func c08EnvBool(name string, def bool) bool {
+	switch os.Getenv(name) {
+	case "1":
+		return true
+	case "0":
+		return false
+	default:
+		return def
+	}
+}
+
 type c08Ctx struct {
 	dir       string
 	clients   *clientsContainer
@@ -59,6 +83,12 @@ type c08Ctx struct {
 	srv       *dnsforward.Server
 	handlers  map[string]http.HandlerFunc
 	refuseAny bool
+	dhcp      *c08DHCP
+	// unit is the statistics unit-id clock of the block (hours).
+	unit uint32
+	// rotated tells that querylog.json.1 exists (rotate is driven only once a
+	// block, so that no record is dropped by a second rename).
+	rotated bool
 }
 
 var c08 *c08Ctx
@@ -132,6 +162,14 @@ func c08IDString(kind, hx, bits string) string {
 		}
 
 		return netip.PrefixFrom(a, vutil.Atoi(bits)).String()
+	case "z":
+		// A zoned address; the third field is the zone name.
+		a, ok := netip.AddrFromSlice(raw)
+		if !ok {
+			panic("bad zoned ip id")
+		}
+
+		return a.WithZone(vutil.Unhex(bits)).String()
 	case "m":
 		return net.HardwareAddr(raw).String()
 	case "c":
@@ -178,8 +216,17 @@ func c08Reset(f []string) []string {
 		dhcp.macs[a] = net.HardwareAddr(vutil.Unhex(l[1]))
 	}
 
-	c := &c08Ctx{dir: c08TempDir(), handlers: map[string]http.HandlerFunc{}, refuseAny: refuseAny}
+	c := &c08Ctx{dir: c08TempDir(), refuseAny: refuseAny, dhcp: dhcp, unit: 480000}
 	c08 = c
+
+	return c.start(objs, anon, qlogOn, statsOn, ignQ, ignS)
+}
+
+// start creates the modules on c.dir from what a configuration file holds:
+// client objects, the two switches, the two ignore lists, the anonymisation
+// flag.  It is used at reset and at restart.
+func (c *c08Ctx) start(objs []*clientObject, anon, qlogOn, statsOn bool, ignQ, ignS []string) []string {
+	c.handlers = map[string]http.HandlerFunc{}
 	reg := func(method, url string, h http.HandlerFunc) { c.handlers[method+" "+url] = h }
 	logger := slogutil.NewDiscardLogger()
 
@@ -188,7 +235,7 @@ func c08Reset(f []string) []string {
 		context.Background(),
 		logger,
 		objs,
-		dhcp,
+		c.dhcp,
 		nil,
 		nil,
 		&filtering.Config{},
@@ -214,6 +261,7 @@ func c08Reset(f []string) []string {
 	}
 	c.st, err = stats.New(stats.Config{
 		Logger:            logger,
+		UnitID:            func() uint32 { return c.unit },
 		Filename:          filepath.Join(c.dir, "stats.db"),
 		Limit:             24 * time.Hour,
 		ConfigModified:    func() {},
@@ -226,7 +274,8 @@ func c08Reset(f []string) []string {
 		panic(err)
 	}
 	stats.VerifC08NoSync(c.st)
-	// What Start does, minus the never-ending periodic-flush goroutine.
+	// What Start does, minus the never-ending periodic-flush goroutine (its
+	// iteration is driven by the tick operation).
 	stats.VerifC08InitWeb(c.st)
 
 	engQ, err := aghnet.NewIgnoreEngine(ignQ)
@@ -250,7 +299,8 @@ func c08Reset(f []string) []string {
 	if err != nil {
 		panic(err)
 	}
-	// What Start does, minus the never-ending rotation goroutine.
+	// What Start does, minus the never-ending rotation goroutine (rotate is
+	// driven by the rotate operation).
 	querylog.VerifC08InitWeb(c.qlog)
 
 	c.srv, err = dnsforward.NewServer(dnsforward.DNSCreateParams{
@@ -264,6 +314,90 @@ func c08Reset(f []string) []string {
 	}
 
 	return []string{"ok"}
+}
+
+// c08CountPair and c08UnitDB mirror the gob layout of a stored statistics unit
+// (only the fields read here), so that the buckets are decoded independently of
+// the stats package.
+type c08CountPair struct {
+	Name  string
+	Count uint64
+}
+
+type c08UnitDB struct {
+	Domains        []c08CountPair
+	BlockedDomains []c08CountPair
+	Clients        []c08CountPair
+}
+
+// c08RawDB sums the per-unit client and domain tables of every bucket of db.
+func c08RawDB(db *bbolt.DB) []string {
+	clients, domains := map[string]uint64{}, map[string]uint64{}
+	bad := 0
+	err := db.View(func(tx *bbolt.Tx) error {
+		return tx.ForEach(func(_ []byte, b *bbolt.Bucket) error {
+			return b.ForEach(func(_, v []byte) error {
+				u := c08UnitDB{}
+				if derr := gob.NewDecoder(bytes.NewReader(v)).Decode(&u); derr != nil {
+					bad++
+
+					return nil
+				}
+				for _, p := range u.Clients {
+					clients[p.Name] += p.Count
+				}
+				for _, p := range u.Domains {
+					domains[p.Name] += p.Count
+				}
+				for _, p := range u.BlockedDomains {
+					domains[p.Name] += p.Count
+				}
+
+				return nil
+			})
+		})
+	})
+	if err != nil || bad != 0 {
+		return []string{fmt.Sprintf("baddb:%d:%v", bad, err)}
+	}
+
+	return append(c08Counts("KC", clients, c08Key), c08Counts("KD", domains, vutil.Hex)...)
+}
+
+// c08Restart stops the modules the way a shutdown does (the log buffer is
+// flushed, the current statistics unit is stored), reads both stores back raw,
+// and starts new modules on the same directory from what the old ones would
+// have written to the configuration file.
+func c08Restart() []string {
+	c := c08
+	qc, sc := querylog.Config{}, stats.Config{}
+	c.qlog.WriteDiskConfig(&qc)
+	c.st.WriteDiskConfig(&sc)
+	objs := c.clients.forConfig()
+
+	_ = c.qlog.Shutdown(context.Background())
+	if err := c.st.Close(); err != nil {
+		return []string{"err:" + vutil.Hex(err.Error())}
+	}
+	c.srv.Close()
+	_ = c.clients.close(context.Background())
+
+	db, err := bbolt.Open(filepath.Join(c.dir, "stats.db"), 0o644, &bbolt.Options{ReadOnly: true, Timeout: time.Second})
+	if err != nil {
+		return []string{"err:" + vutil.Hex(err.Error())}
+	}
+	raw := c08RawDB(db)
+	_ = db.Close()
+
+	res := c.start(objs, qc.AnonymizeClientIP, qc.Enabled, sc.Enabled, qc.Ignored.Values(), sc.Ignored.Values())
+	if len(res) != 1 || res[0] != "ok" {
+		return res
+	}
+
+	out := append(c08Mem(), c08File()...)
+	out = append(out, raw...)
+
+	return append(out, c08Unit()...)
 }
 
 func c08CanonIP(ip net.IP) string {
@@ -434,6 +568,10 @@ func c08Run(f []string) []string {
 			panic("bad client address")
 		}
 		cid := vutil.Unhex(f[4])
+		if len(f) > 5 && addr.Is6() {
+			// An IPv6 zone of the peer address (link-local clients have one).
+			addr = addr.WithZone(vutil.Unhex(f[5]))
+		}
 		dnsforward.VerifC08Process(c08.srv, name, qt, netip.AddrPortFrom(addr, 53535), cid, c08.refuseAny)
 
 		return append(c08Mem(), c08Unit()...)
@@ -481,6 +619,30 @@ func c08Run(f []string) []string {
 		}
 
 		return []string{"ok"}
+	case "C08.tick":
+		c08.unit++
+		stats.VerifC08Flush(c08.st)
+		db := stats.VerifC08DB(c08.st)
+		if db == nil {
+			return []string{"nodb"}
+		}
+
+		return append(c08RawDB(db), c08Unit()...)
+	case "C08.restart":
+		return c08Restart()
+	case "C08.rotate":
+		if c08.rotated {
+			return []string{"skip"}
+		}
+		if err := querylog.VerifC08Rotate(c08.qlog); err != nil {
+			return []string{"err:" + vutil.Hex(err.Error())}
+		}
+		if _, err := os.Stat(filepath.Join(c08.dir, "querylog.json.1")); err != nil {
+			return []string{"nofile"}
+		}
+		c08.rotated = true
+
+		return append([]string{"ok"}, c08File()...)
 	case "C08.search":
 		code, body := c08HTTP(http.MethodGet, "/control/querylog?limit=100000&offset=0", "")
 		if code != http.StatusOK {
@@ -591,6 +753,11 @@ func c08Addr(r *rand.Rand) string {
 	}
 }
 
+// c08LinkLocal are the addresses persistent clients hold with a zone.
+var c08LinkLocal = []string{c08V6("fe80::1"), c08V6("fe80::2")}
+
+var c08Zones = []string{"eth0", "wlan0"}
+
 var c08MACs = []string{
 	"\xaa\xbb\xcc\xdd\xee\xff", "\x02\x00\x00\x00\x00\x01", "\x02\x00\x00\x00\x00\x02", "\x00\x11\x22\x33\x44\x55",
 }
@@ -603,37 +770,41 @@ var c08CIDs = []string{"cli", "client-1", "aa-bb-cc-dd-ee-ff", "laptop", "x", "0
 // MAC-shaped one would be stored as a MAC by setID, so those come as kind m).
 var c08OwnCIDs = []string{"cli", "client-1", "laptop", "x", "phone"}
 
-type c08ID struct{ kind, raw string; bits int }
+type c08ID struct {
+	kind, raw string
+	bits      int
+	zone      string
+}
 
 func c08Prefixes() []c08ID {
 	return []c08ID{
-		{"n", "\xc0\xa8\x01\x00", 24}, {"n", "\xc0\xa8\x00\x00", 16}, {"n", "\x0a\x00\x00\x00", 8},
-		{"n", "\xc0\xa8\x01\x04", 30}, {"n", "\xc0\xa8\x01\x05", 24}, {"n", "\x00\x00\x00\x00", 0},
-		{"n", "\xc0\xa8\x01\x05", 32}, {"n", "\x0a\x01\x00\x00", 16},
-		{"n", c08V6("2001:db8::"), 32}, {"n", c08V6("2001:db8::"), 64}, {"n", c08V6("2001:db8::1"), 128},
-		{"n", c08V6("::"), 0}, {"n", c08In6("\xc0\xa8\x01\x00"), 120}, {"n", c08V6("fe80::"), 10},
+		{kind: "n", raw: "\xc0\xa8\x01\x00", bits: 24}, {kind: "n", raw: "\xc0\xa8\x00\x00", bits: 16}, {kind: "n", raw: "\x0a\x00\x00\x00", bits: 8},
+		{kind: "n", raw: "\xc0\xa8\x01\x04", bits: 30}, {kind: "n", raw: "\xc0\xa8\x01\x05", bits: 24}, {kind: "n", raw: "\x00\x00\x00\x00", bits: 0},
+		{kind: "n", raw: "\xc0\xa8\x01\x05", bits: 32}, {kind: "n", raw: "\x0a\x01\x00\x00", bits: 16},
+		{kind: "n", raw: c08V6("2001:db8::"), bits: 32}, {kind: "n", raw: c08V6("2001:db8::"), bits: 64}, {kind: "n", raw: c08V6("2001:db8::1"), bits: 128},
+		{kind: "n", raw: c08V6("::"), bits: 0}, {kind: "n", raw: c08In6("\xc0\xa8\x01\x00"), bits: 120}, {kind: "n", raw: c08V6("fe80::"), bits: 10},
 	}
 }
 
 func c08GenID(r *rand.Rand) c08ID {
 	switch r.IntN(12) {
 	case 0, 1, 2:
-		return c08ID{"i", vutil.Pick(r, c08V4), 0}
+		return c08ID{kind: "i", raw: vutil.Pick(r, c08V4)}
 	case 3:
-		return c08ID{"i", vutil.Pick(r, c08V6s), 0}
+		return c08ID{kind: "i", raw: vutil.Pick(r, c08V6s)}
 	case 4:
-		return c08ID{"i", c08In6(vutil.Pick(r, c08V4)), 0}
+		return c08ID{kind: "i", raw: c08In6(vutil.Pick(r, c08V4))}
 	case 5, 6, 7:
 		return vutil.Pick(r, c08Prefixes())
 	case 8, 9:
-		return c08ID{"m", vutil.Pick(r, c08MACs), 0}
+		return c08ID{kind: "m", raw: vutil.Pick(r, c08MACs)}
 	default:
 		id := vutil.Pick(r, c08OwnCIDs)
 		if r.IntN(8) == 0 {
 			id = strings.ToUpper(id)
 		}
 
-		return c08ID{"c", id, 0}
+		return c08ID{kind: "c", raw: id}
 	}
 }
 
@@ -760,6 +931,8 @@ func c08EmitStrings(out []string, l []string) []string {
 
 func c08Gen(r *rand.Rand, emit vutil.Emit) {
 	blocks := vutil.N(300)
+	fix := c08EnvBool("VERIF_C08_FIX", c08FixDefault)
+	zoned := c08EnvBool("VERIF_C08_ZONED", c08ZonedDefault)
 	for b := 0; b < blocks; b++ {
 		anon := r.IntN(2) == 0
 		refuseAny := r.IntN(2) == 0
@@ -778,6 +951,9 @@ func c08Gen(r *rand.Rand, emit vutil.Emit) {
 		}
 		allowClash := r.IntN(25) == 0
 		used := map[c08ID]bool{}
+		// One zone per link-local address and block: the same address under two
+		// zones in different clients is the indeterminate case of FindLoose.
+		zoneOf := map[string]string{}
 		var names []string
 		f = append(f, vutil.Itoa(nC))
 		for j := 0; j < nC; j++ {
@@ -791,6 +967,13 @@ func c08Gen(r *rand.Rand, emit vutil.Emit) {
 			want := 1 + r.IntN(3)
 			for tries := 0; len(ids) < want && tries < 20; tries++ {
 				id := c08GenID(r)
+				if zoned && r.IntN(4) == 0 {
+					a := vutil.Pick(r, c08LinkLocal)
+					if zoneOf[a] == "" {
+						zoneOf[a] = vutil.Pick(r, c08Zones)
+					}
+					id = c08ID{kind: "z", raw: a, zone: zoneOf[a]}
+				}
 				key := id
 				if id.kind == "c" {
 					key.raw = strings.ToLower(id.raw)
@@ -802,11 +985,15 @@ func c08Gen(r *rand.Rand, emit vutil.Emit) {
 				ids = append(ids, id)
 			}
 			if len(ids) == 0 {
-				ids = append(ids, c08ID{"c", fmt.Sprintf("only-%d", j), 0})
+				ids = append(ids, c08ID{kind: "c", raw: fmt.Sprintf("only-%d", j)})
 			}
 			f = append(f, vutil.Itoa(len(ids)))
 			for _, id := range ids {
-				f = append(f, id.kind, vutil.Hex(id.raw), vutil.Itoa(id.bits))
+				third := vutil.Itoa(id.bits)
+				if id.kind == "z" {
+					third = vutil.Hex(id.zone)
+				}
+				f = append(f, id.kind, vutil.Hex(id.raw), third)
 			}
 		}
 
@@ -825,12 +1012,13 @@ func c08Gen(r *rand.Rand, emit vutil.Emit) {
 			seenL[a] = true
 			f = append(f, vutil.Hex(a), vutil.Hex(vutil.Pick(r, c08MACs)))
 		}
+		f = append(f, vutil.B(fix))
 		emit(append([]string{"C08.reset"}, f...)...)
 
 		nOps := 8 + r.IntN(30)
 		for k := 0; k < nOps; k++ {
 			switch x := r.IntN(100); {
-			case x < 64:
+			case x < 62:
 				qt := dns.TypeA
 				switch r.IntN(8) {
 				case 0:
@@ -842,25 +1030,41 @@ func c08Gen(r *rand.Rand, emit vutil.Emit) {
 				if r.IntN(5) < 2 {
 					cid = vutil.Pick(r, c08CIDs)
 				}
-				emit("C08.query", vutil.Hex(c08GenQName(r)), vutil.Itoa(int(qt)), vutil.Hex(c08Addr(r)), vutil.Hex(cid))
-			case x < 72:
+				zone := ""
+				if r.IntN(6) == 0 {
+					zone = vutil.Pick(r, []string{"eth0", "1", "wlan0"})
+				}
+				addr := c08Addr(r)
+				if zoned && r.IntN(5) == 0 {
+					// a link-local peer, mostly with a zone
+					addr = vutil.Pick(r, c08LinkLocal)
+					zone = vutil.Pick(r, []string{"eth0", "wlan0", "eth0", "wlan0", ""})
+				}
+				emit("C08.query", vutil.Hex(c08GenQName(r)), vutil.Itoa(int(qt)), vutil.Hex(addr), vutil.Hex(cid), vutil.Hex(zone))
+			case x < 70:
 				emit("C08.flush")
-			case x < 78:
+			case x < 72:
+				emit("C08.tick")
+			case x < 74:
+				emit("C08.restart")
+			case x < 75:
+				emit("C08.rotate")
+			case x < 80:
 				if r.IntN(3) == 0 {
 					anon = !anon
 				}
 				g := []string{"C08.qlogconf", vutil.B(r.IntN(10) != 0), vutil.B(anon)}
 				emit(c08EmitStrings(g, c08GenRules(r))...)
-			case x < 82:
+			case x < 84:
 				g := []string{"C08.statsconf", vutil.B(r.IntN(10) != 0)}
 				emit(c08EmitStrings(g, c08GenRules(r))...)
-			case x < 88:
+			case x < 89:
 				name := "c9"
 				if len(names) > 0 && r.IntN(10) != 0 {
 					name = vutil.Pick(r, names)
 				}
 				emit("C08.setflags", vutil.Hex(name), vutil.B(r.IntN(2) == 0), vutil.B(r.IntN(2) == 0))
-			case x < 89:
+			case x < 90:
 				name := "c9"
 				if len(names) > 0 {
 					name = vutil.Pick(r, names)
